@@ -26,9 +26,7 @@ const Prelude = `(set-option :produce-models true)
 (declare-fun streq (Str Str) Bool)
 (declare-fun strdiff (Str Str) Int)
 (assert (forall ((s Str) (t Str)) (! (= (streq s t) (= s t)) :pattern ((streq s t)))))
-(assert (forall ((s Str) (t Str)) (! (or (streq s t) (not (= (len s) (len t)))
-   (and (<= 0 (strdiff s t)) (< (strdiff s t) (len s)) (not (= (at s (strdiff s t)) (at t (strdiff s t))))))
-   :pattern ((streq s t)))))
+(assert (forall ((s Str) (t Str)) (! (or (streq s t) (not (= (len s) (len t))) (and (<= 0 (strdiff s t)) (< (strdiff s t) (len s)) (not (= (at s (strdiff s t)) (at t (strdiff s t)))))) :pattern ((streq s t)))))
 (declare-fun strcat (Str Str) Str)
 (assert (forall ((a Str) (b Str)) (! (= (len (strcat a b)) (+ (len a) (len b))) :pattern ((strcat a b)))))
 (assert (forall ((a Str) (b Str) (i Int)) (! (= (at (strcat a b) i) (ite (< i (len a)) (at a i) (at b (- i (len a))))) :pattern ((at (strcat a b) i)))))
